@@ -228,14 +228,22 @@ class BracedNameToken(XPathToken):
         if self.parser.strict and self.symbol == '{':
             raise self.wrong_syntax("not allowed symbol if parser has strict=True")
 
-        self.parser.next_token.unexpected('{')
-        if self.parser.next_token.symbol == '}':
-            namespace = ''
-        else:
-            value = self.parser.next_token.value
-            assert isinstance(value, str)
-            namespace = value + self.parser.advance_until('}')
-            namespace = collapse_white_spaces(namespace)
+        # BracedURILiteral ::= "Q" "{" [^{}]* "}": the URI is taken from the raw source,
+        # it's not a sequence of XPath tokens (it can start with digits or contain quotes).
+        source = self.parser.source
+        start = self.span[1]
+        end = source.find('}', start)
+        if end < 0:
+            raise self.parser.next_token.wrong_syntax()
+        elif '{' in source[start:end]:
+            self.parser.next_token.unexpected('{')
+            raise self.wrong_syntax()
+        namespace = collapse_white_spaces(source[start:end])
+
+        # Restart the tokenizer from the closing brace
+        self.parser.tokens = iter(self.parser.tokenizer.finditer(source, end))
+        self.parser.next_token = self
+        self.parser.advance()
 
         try:
             AnyURI(namespace)
